@@ -108,7 +108,7 @@ func (in *Interp) newErrorString(msg string) Value {
 	t := in.lookupNamed("errors", "errorString")
 	c := in.newCell(t)
 	in.store(c.sub[0], in.strConst(msg))
-	return IfaceV{t: types.NewPointer(t), v: PtrV{c}}
+	return IfaceV{t: types.NewPointer(t), v: PtrV{c: c}}
 }
 
 func (in *Interp) newWrapError(msg string, inner Value) Value {
@@ -116,7 +116,7 @@ func (in *Interp) newWrapError(msg string, inner Value) Value {
 	c := in.newCell(t)
 	in.store(c.sub[0], in.strConst(msg))
 	in.store(c.sub[1], inner)
-	return IfaceV{t: types.NewPointer(t), v: PtrV{c}}
+	return IfaceV{t: types.NewPointer(t), v: PtrV{c: c}}
 }
 
 func variadicArgs(in *Interp, v Value) []Value {
@@ -460,7 +460,10 @@ func init() {
 		"(*sync.Once).Do": func(in *Interp, fn *ssa.Function, a []Value) Value {
 			p := a[0].(PtrV)
 			// done flag lives in the first leaf of the Once struct
-			flag := firstLeaf(p.c)
+			flag := firstIntLeaf(p.c)
+			if flag == nil {
+				panic(unsupported("sync.Once layout"))
+			}
 			if t, ok := flag.v.(*Term); ok && t.IsConst() && t.val != 0 {
 				return nil
 			}
@@ -510,7 +513,7 @@ func init() {
 		"internal/godebug.(*Setting).IncNonDefault": mNop,
 		"time.Now": func(in *Interp, fn *ssa.Function, a []Value) Value { return in.zeroResults(fn) },
 		"time.Since": func(in *Interp, fn *ssa.Function, a []Value) Value { return in.i64(0) },
-		"unicode/utf8.RuneCountInString": nil, // real
+		"(*github.com/go-faster/yaml.Node).ShortTag": func(in *Interp, fn *ssa.Function, a []Value) Value { return in.strConst("<tag>") },
 	}
 	for k, v := range modelTab {
 		if v == nil {
@@ -519,11 +522,21 @@ func init() {
 	}
 }
 
-func firstLeaf(c *Cell) *Cell {
-	for c.kind == 1 {
-		c = c.sub[0]
+func firstIntLeaf(c *Cell) *Cell {
+	switch c.kind {
+	case 0:
+		if t, ok := c.v.(*Term); ok && t.w > 0 {
+			return c
+		}
+		return nil
+	case 1:
+		for _, s := range c.sub {
+			if r := firstIntLeaf(s); r != nil {
+				return r
+			}
+		}
 	}
-	return c
+	return nil
 }
 
 func mAtomicStore(in *Interp, fn *ssa.Function, a []Value) Value {
